@@ -24,7 +24,7 @@ RAW = {"deg": [2, 1], "kv": [[[0, 1]] * 3 + [[2, 1]] + [[3, 1]] * 3, [[1, 1], [1
 def lattice(uv, su, sv):
     a, b = uv[0] * (su - 1), uv[1] * (sv - 1)
     ia, ib = round(a), round(b)
-    if abs(a - ia) > 1e-9 or abs(b - ib) > 1e-9:
+    if abs(a - ia) > 1e-9 or abs(b - ib) > 1e-9 or not (0 <= ia <= su - 1 and 0 <= ib <= sv - 1):
         return None
     return [int(ia), int(ib)]
 
@@ -170,18 +170,18 @@ def check_exports(ctx, su, sv, s):
     from geomdl import exchange, multi
     tg = ["export", "spacing=%d" % s]
     small = {"sample_size": [su, sv], "vertex_spacing": s}
-    for nsurf in (1, 2):
-        t2 = tg + ["container" if nsurf == 2 else "single"]
+    for nsurf in (1, 2, 3):
+        t2 = tg + ["container%d" % nsurf if nsurf >= 2 else "single"]
         ctx.count(("export", su, sv, s, nsurf), sample={"op": "export", **small, "surfaces": nsurf})
         try:
             refs = []
             for k in range(nsurf):
-                r = build(SURFS[k])
+                r = build(SURFS[k % 2])
                 r.sample_size_u, r.sample_size_v = su, sv
                 r.tessellate(vertex_spacing=s)
                 refs.append(([list(v.data) for v in r.vertices], [list(f.vertex_ids) for f in r.faces]))
             def target():
-                objs = [build(SURFS[k]) for k in range(nsurf)]
+                objs = [build(SURFS[k % 2]) for k in range(nsurf)]
                 for o in objs:
                     o.sample_size_u, o.sample_size_v = su, sv
                 if nsurf == 1:
@@ -242,13 +242,13 @@ def check_exports(ctx, su, sv, s):
             if not ok:
                 ctx.violate("exchange.export_stl_str", t2 + ["binary"], small, {"facets": [n, len(allf)]})
             # container tessellation: vertex / face ids are offset per surface
-            if nsurf == 2:
+            if nsurf >= 2:
                 c = target()
                 c.tessellate(vertex_spacing=s)
                 # reference: the elements tessellated on their own at the sampling the container imposes on them (its delta)
                 cv, cf = [], 0
                 for k in range(nsurf):
-                    r = build(SURFS[k])
+                    r = build(SURFS[k % 2])
                     r.delta = c.delta
                     r.tessellate(vertex_spacing=s)
                     cv += [list(v.data) for v in r.vertices]
